@@ -206,6 +206,27 @@ def run(pid, tier, seed):
     if len(verd) != len(rows):
         raise Machinery(f"verdict lines {len(verd)} != events {len(rows)}")
     rep.add_tlc(res)
+    ts_cov = {}
+    if REPLAY is None:
+        # design level, independent of the implementation: the rewrite MODEL as a transition system over the rule universe -
+        # every transition sound (action property), flags truthful, quadratic bound, and termination as LIVENESS (<>[] reduced)
+        n_ts = (1300 if pid == "C11" else 500) if tier == "quick" else 6000
+        ts_in = [t for t in gen.dedup(rnd.sample(gen.rule_patterns(tier), n_ts) + gen.chains(8)[:40] + gen.constant_trees(seed + 5, 60)) if J.size(t) <= 30]
+        work2 = tlcrun.scratch_dir("rts")
+        try:
+            tsf = os.path.join(work2, "inputs.ndjson")
+            write_ndjson(tsf, [{"t": t} for t in ts_in])
+            rts = tlcrun.run("ReduceTS", "ReduceTS.cfg", trace_file=tsf, workers=8, timeout=(900 if tier == "quick" else 3000), expect_violation=True)
+        finally:
+            shutil.rmtree(work2, ignore_errors=True)
+        if rts["violated"]:
+            raise Machinery(f"the rewrite MODEL as a transition system violates {rts['violated']} (design-level counterexample)\n"
+                            + "\n".join(rts["out"].splitlines()[-40:])[:5000])
+        if not rts["ok"]:
+            raise Machinery("ReduceTS did not complete\n" + "\n".join(rts["out"].splitlines()[-20:]))
+        rep.add_tlc(rts)
+        ts_cov = {"model_transition_system": {"initial_expressions": len(ts_in), "states": rts.get("distinct"), "depth": rts.get("depth"),
+                                              "properties": ["StepsSound", "FlagsTruthful", "Bounded", "EndsRuleFree", "Terminates (liveness, WF)"]}}
     counts = {"steps": 0, "drift_steps": 0, "fl_points": 0, "fl_decided": 0, "skip_illcond": 0, "kf1_steps": 0, "gaveup_events": 0,
               "untruthful_flags": 0, "max_steps": 0, "max_steps_ratio": 0.0}
     rules = {}
@@ -311,7 +332,7 @@ def run(pid, tier, seed):
     if never and REPLAY is None:
         raise Machinery(f"vacuity: rules never fired in this run: {never}")
     return rep.finish({"evaluations": counts["steps"] + 2 * len(rows), "distinct_nontrivial": len(nontrivial), "traces_validated_against_impl": len(rows),
-                       "derivations": len(rows), "skipped_overflow": skipped_overflow, "rule_fire_counts": fired, **counts,
+                       "derivations": len(rows), "skipped_overflow": skipped_overflow, "rule_fire_counts": fired, **ts_cov, **counts,
                        "rule": "inputs = every rewrite rule's left-hand pattern with holes from H, parameters (n,m) in 1..6^2, bases, positions in n-ary lists, "
                                "each wrapped once more in every constructor (sampled in quick), nested chains, variable-free trees (folding, failed folding), "
                                "seeded random trees depth 3-4, unnormalised symbolic derivatives (both routes), give-up runs with budget 3/5/8 (thorough: 150-700-node inputs with the real budget); "
